@@ -141,6 +141,15 @@ CHECKS["C15"] = dict(
     note="Weaker than C14: real threads, perturbed schedule. Trusts the quiescence criterion (queues empty, executor idle, state unchanged 3 s with a 0.2 s master poll).",
     design="DESIGN.md section 4 C15")
 
+CHECKS["C16"] = dict(
+    technique="enumeration of component x wrapping-factory combinations plus Hypothesis-random sweep specifications; oracle = the framework's own contract catalogue (validate_component, error level) on node and processor classes, and per-kind mirror relations between node wrapper and wrapped processor",
+    text=("Generated-input search over node configurations (~290 enumerated factory paths + 1.5k random sweep nodes quick, 36k thorough): "
+          "every generated node class and processor class must pass the contract catalogue without error-level diagnostics and the "
+          "wrapper's input/output types and created keys must mirror the processor (sources take no data, sinks and probes pass "
+          "their input type through)."),
+    note="Trusts validate_component as the published catalogue; only constructible configurations are judged.",
+    design="DESIGN.md section 4 C16")
+
 NOT_YET = {}
 
 
